@@ -36,7 +36,7 @@ SPEC = dict(
     assumptions=["bvmon/ref_v1.py renders/reads the legacy parts from their documented composites",
                  "{iso_week}/{us_week} and the zero-padded {MM}/{PPP}/{BBB} families are outside the statement"],
     required=["roundtrips", "test_accepted", "chain_steps", "pycalver_string_order_checks", "updates_ok",
-              "dispatch_checked", "short_roundtrips", "legacy_pin_date_cases", "follow_up_updates", "show_environ_checked",
+              "dispatch_checked", "short_roundtrips", "legacy_pin_date_cases", "legacy_pin_date_bumps_that_must_succeed", "follow_up_updates", "show_environ_checked",
               "legacy_both_placeholders_in_one_pattern"],
     anchors=[("v1version", "parse_version_info"), ("v1version", "format_version"), ("v1version", "incr"),
              ("cli", "incr_dispatch"), ("v1patterns", "_compile_pattern_re")],
@@ -198,6 +198,10 @@ def run_case(ctx, case):
         else:
             args = ["test", old, p] + flags_for(R, p) + ["--date", date.isoformat()]
         res = harness.invoke(args)
+        must_succeed = "--pin-date" in args and "--tag" not in args and bool(
+            [t for n, t in (ref_v1.parse(ast, old) or []) if ref_v1.FIELD.get(n) == "bid" and set(t) != {"9"}])
+        if must_succeed:
+            ctx.counters["legacy_pin_date_bumps_that_must_succeed"] += 1
         eng = contracts.engines_used(res.trace)
         ctx.counters["dispatch_checked"] += 1
         used = set().union(*eng.values()) if eng else set()
@@ -223,6 +227,10 @@ def run_case(ctx, case):
                             break
         elif res.crash and not res.crash.startswith("OverflowError"):
             ctx.violation(classify(p, "test_crash"), f"{args}: {res.crash[:300]}", case=case)
+        elif must_succeed:
+            # the date is kept, the build id grows: the result reads back with the SAME calendar parts and is greater
+            # - there is nothing that could make this bump fail
+            ctx.violation(classify(p, "legacy_pinned_bump_refused"), f"{args}: exit {res.exit_code} {res.errors()[-2:]}", case=case)
         return
     if k == "chain":
         p = R.choice(["{pycalver}", "{pycalver}", "{year}{build}{release}", "{semver}", "v{year}{month}{build}{release}"])
